@@ -713,7 +713,7 @@ pub fn month_grid() -> Vec<Case> {
 
 pub fn run(ctx: &Ctx) {
     crate::calendar::self_test();
-    ctx.rule("generated: dates of years 1..9999 (uniform day numbers, recent years, month ends, leap days, Dec/Jan, the current year) in every spelling (d/m/y with/without leading zeros and blanks, d Mon y, d Month y, Mon d[,] y, d Mon) in any letter case, English and Turkish (all configured month names incl. ASCII variants); impossible dates (day 0, day past the end of the month incl. 29 Feb of non-leap years, month 0/13); D +- N days|weeks|months|years (+ extra days; for spans below 30 days also with the sign glued to the count: `10 june 2020 -3 weeks`), A to B in both orders, today/tomorrow/yesterday and their differences; a quarter of the cases under one of the other three separator conventions (dates contain no separators), a third of the cases under a non-UTC default zone (GMT+14, GMT-12, EST, CET, IST, NPT, GMT+13:45, GMT-9:30: calendar dates and their arithmetic do not depend on the zone, and the three day constants stay consecutive); metamorphic step: the duration of an arithmetic line / the first date of a difference also held in a name bound on an earlier line (the line must give exactly the literal line's value); oracle: independent proleptic-Gregorian calendar (days-from-civil), month arithmetic = month index moved by N keeping the day of month (asserted only when that day exists and the result is in years 1..9999), differences = |days|*86400 s, output month word/year elision checked; exhaustive grid 12 months x N 0..36 x +- x days {1,15,28}; non-trivial = the operation crosses a month boundary, or a non-canonical spelling, an impossible date, a difference");
+    ctx.rule("generated: dates of years 1..9999 (uniform day numbers, recent years, month ends, leap days, Dec/Jan, the current year) in every spelling (d/m/y with/without leading zeros and blanks, d Mon y, d Month y, Mon d[,] y, d Mon) in any letter case, English and Turkish (all configured month names incl. ASCII variants); impossible dates (day 0, day past the end of the month incl. 29 Feb of non-leap years, month 0/13); D +- N days|weeks|months|years (+ extra days; for spans below 30 days also with the sign glued to the count: `10 june 2020 -3 weeks`), A to B in both orders, today/tomorrow/yesterday and their differences; a quarter of the cases under one of the other three separator conventions (dates contain no separators), a third of the cases under a non-UTC default zone (GMT+14, GMT-12, EST, CET, IST, NPT, GMT+13:45, GMT-9:30: calendar dates and their arithmetic do not depend on the zone, and the three day constants stay consecutive); metamorphic step: the duration of an arithmetic line / the first date of a difference also held in a name bound on an earlier line (the line must give exactly the literal line's value); 'Month day , year' with the comma standing apart; every other via-name step holds only the COUNT in the name (b = 3 / D + b days); oracle: independent proleptic-Gregorian calendar (days-from-civil), month arithmetic = month index moved by N keeping the day of month (asserted only when that day exists and the result is in years 1..9999), differences = |days|*86400 s, output month word/year elision checked; exhaustive grid 12 months x N 0..36 x +- x days {1,15,28}; non-trivial = the operation crosses a month boundary, or a non-canonical spelling, an impossible date, a difference");
     ctx.assume("the clock: expected values for today/current-year are computed from chrono::Utc read before and after each evaluation; a case during which the date changes is skipped");
     ctx.assume("a third of the cases run under a non-UTC default zone; there a bare today/tomorrow/yesterday may be the UTC day or the zone's day (at most one day apart), their differences must still be exactly one and two days");
     ctx.run_table(&Dates, "month-grid+month-names", month_grid(), true);
